@@ -286,6 +286,19 @@ pub fn generate(seed: u64, tier: &str, sink: &mut Sink) {
     w.extend_from_slice(b"5;");
     w.extend(std::iter::repeat(b'x').take(endless_len));
     run_endless("chunk-ext", w, 100, CHUNKED_HEAD.len() + consts.chunk_size_line_limit + cap, sink, false);
+    // an endless trailer line behind the last chunk, and trailer lines without end
+    let mut w = CHUNKED_HEAD.to_vec();
+    w.extend_from_slice(b"3\r\nabc\r\n0\r\nX-T: ");
+    w.extend(std::iter::repeat(b'y').take(endless_len));
+    run_endless("trailer-line", w, 100, CHUNKED_HEAD.len() + 20 + consts.trailer_line_limit + cap, sink, false);
+    let mut w = CHUNKED_HEAD.to_vec();
+    w.extend_from_slice(b"3\r\nabc\r\n0\r\n");
+    let mut i = 0;
+    while w.len() < endless_len {
+        w.extend_from_slice(format!("X-T{}: v\r\n", i).as_bytes());
+        i += 1;
+    }
+    run_endless("trailer-lines", w, 100, CHUNKED_HEAD.len() + 20 + (consts.max_trailer_lines + 2) * 16 + cap, sink, false);
     // a CONNECT refusal body beyond the cap is cut, never buffered whole
     crate::p_c12::generate_sel(seed, tier, sink, true);
     // declared sizes far beyond what is sent
